@@ -45,7 +45,7 @@ def ref_encoding_check(ex, xbits, vec, limit=spec.COEFF_LIMIT):
     terms = [mag_terms(v) for v in vec]
     highs = [z3.LShR(m, 7) for _, m in terms]
     found = None
-    ex.solver.push()
+    ex.push()
     try:
         rounds = 0
         while True:
@@ -79,9 +79,9 @@ def ref_encoding_check(ex, xbits, vec, limit=spec.COEFF_LIMIT):
             if ok:
                 found = mm
                 break
-            ex.solver.add(z3.Not(fix))
+            ex.assume(z3.Not(fix))
     finally:
-        ex.solver.pop()
+        ex.pop()
     return found
 
 
@@ -168,7 +168,7 @@ def compress_scen(structures, L_offsets=(-1, 0, 1, 3), deadline_s=None, tag=''):
             lo = [ex.new_input('l%d' % i, 'u8') for i in range(n)]
             vs = []
             for i in range(n):
-                ex.solver.add(z3.ULT(lo[i].t, 128))
+                ex.assume(z3.ULT(lo[i].t, 128))
                 mag = z3.ZeroExt(8, lo[i].t) + z3.BitVecVal(128 * hs[i], 16)
                 vs.append(V(z3.If(sg[i].t, -mag, mag), 'i16'))
             fits = n > 0 and nbits <= 8 * L
